@@ -2,6 +2,9 @@
 expected instance; every patch in benign/<id>/ must leave it silent.  Patches are applied to a scratch
 copy of the *current* /repo tree (outside /repo and /verif), which is removed afterwards.
 
+refactors/<id>-R<k>/patch.diff are behaviour-preserving changes written by independent sub-agents that saw only the
+property text: the check must not report a violation on them (exit 2 = undecided is recorded, not counted as an alarm).
+
 Patch header lines (before the diff):
     # expect: <substring that must occur in a reported violation line (rule id, key or message)>
     # about:  <one line: what the edit breaks / why it is benign>
@@ -43,8 +46,10 @@ def run_one(prop, patch, root='/repo', expect_fire=True):
             if expect and not any(expect in l for l in out.splitlines()):
                 return {'patch': os.path.basename(patch), 'result': 'WRONG-INSTANCE', 'expect': expect, 'tail': out[-900:]}
             return {'patch': os.path.basename(patch), 'result': 'caught', 'report': (fired[0] if fired else '')[:300]}
-        if r.returncode != 0:
+        if r.returncode == 1:
             return {'patch': os.path.basename(patch), 'result': 'FALSE-ALARM', 'exit': r.returncode, 'tail': out[-900:]}
+        if r.returncode != 0:
+            return {'patch': os.path.basename(patch), 'result': 'UNDECIDED', 'exit': r.returncode, 'tail': out[-900:]}
         return {'patch': os.path.basename(patch), 'result': 'silent'}
     finally:
         shutil.rmtree(d, ignore_errors=True)
@@ -64,6 +69,8 @@ def run(ctx):
         jobs.append((p, False))
     for p in sorted(glob.glob(os.path.join(VERIF, 'seeded', ctx.prop + '-*', 'patch.diff'))):
         jobs.append((p, True))
+    for p in sorted(glob.glob(os.path.join(VERIF, 'refactors', ctx.prop + '-R*', 'patch.diff'))):
+        jobs.append((p, False))
     with ThreadPoolExecutor(max_workers=8) as ex:
         res = list(ex.map(lambda j: dict(run_one(ctx.prop, j[0], ctx.root, j[1]), kind='mutant' if j[1] else 'benign',
                                          path=os.path.relpath(j[0], VERIF)), jobs))
@@ -71,6 +78,7 @@ def run(ctx):
                     'mutants_missed': [r for r in res if r['result'] in ('MISSED', 'WRONG-INSTANCE')],
                     'benign_silent': sum(1 for r in res if r['result'] == 'silent'),
                     'benign_false_alarm': [r for r in res if r['result'] == 'FALSE-ALARM'],
+                    'benign_undecided': [r['path'] for r in res if r['result'] == 'UNDECIDED'],
                     'skipped': [r['path'] for r in res if r['result'] == 'skipped'],
                     'results': res}
     for r in res:
